@@ -65,6 +65,10 @@ Model(k1, k2, d1, d2) ==
         form |-> Inv("s2", <<Bd("b", Lit(A)), Bd("a", Lit(Bin("add", B, One)))>>)],
      [name |-> "d5", reqIn |-> <<"a", "b">>, reqDec |-> <<>>, reqBkm |-> <<>>, reqSvc |-> <<"s1">>,
         form |-> Inv("s1", <<Bd("a", Lit(B)), Bd("b", Lit(Hundred))>>)],
+     \* the same decision (d1) required directly AND evaluated inside a service that is given other input values
+     [name |-> "d7", reqIn |-> <<"a", "b">>, reqDec |-> <<"d1">>, reqBkm |-> <<>>, reqSvc |-> <<"s2">>,
+        form |-> CtxF(<<En("u1", Lit(D1)), En("u2", Inv("s2", <<Bd("a", Lit(Bin("add", A, One))), Bd("b", Lit(B))>>)), En("u3", Lit(D1))>>,
+                      Lit([n |-> "list", items |-> <<Nm("u1"), Nm("u2"), Nm("u3")>>]))],
      [name |-> "d6", reqIn |-> <<"a", "b">>, reqDec |-> <<>>, reqBkm |-> <<"k0">>, reqSvc |-> <<>>,
         form |-> Lit([n |-> "list", items |-> <<A, [n |-> "path", id |-> "r", a |-> Call("k0", <<>>)], A, B>>])]>>,
    services |-> <<[name |-> "s1", inData |-> <<"a", "b">>, inDec |-> <<>>, enc |-> <<"d1", "d2">>, out |-> <<"d3">>],
@@ -73,7 +77,7 @@ Model(k1, k2, d1, d2) ==
                   [name |-> "s3", inData |-> <<"a", "b">>, inDec |-> <<>>, enc |-> <<"d1">>, out |-> <<"d2", "dr">>]>>,
    invocables |-> <<<<"decision", "d1">>, <<"decision", "d2">>, <<"decision", "d3">>, <<"decision", "dr">>,
                     <<"bkm", "k1">>, <<"bkm", "k2">>, <<"service", "s1">>, <<"service", "s2">>,
-                    <<"decision", "d4">>, <<"decision", "d5">>, <<"service", "s3">>, <<"decision", "d6">>, <<"bkm", "k0">>>>]
+                    <<"decision", "d4">>, <<"decision", "d5">>, <<"service", "s3">>, <<"decision", "d6">>, <<"bkm", "k0">>, <<"decision", "d7">>>>]
 
 V(m) == [k |-> "num", m |-> m, e |-> 0]
 Inputs == << [k |-> "ctx", ents |-> <<[n |-> "a", v |-> V(2)], [n |-> "b", v |-> V(3)]>>],
